@@ -260,10 +260,10 @@ func (c *ctx) flushBuf() {
 func (c *ctx) bufferedExhaustive(quick bool) {
 	L := 9
 	if !quick {
-		L = 12
+		L = 13
 	}
 	if c.f.Search {
-		L = 13
+		L = 14
 	}
 	n := 0
 	for init := -1; init <= 4; init++ {
